@@ -20,6 +20,7 @@ type Config struct {
 	NoMachine      bool // do not import the machine package (faster type-check)
 	NoClosures     bool
 	NoShadowing    bool
+	NoGenerics     bool
 }
 
 // DefaultConfig is the C01 configuration: all known findings excluded.
@@ -79,15 +80,16 @@ type fnCtx struct {
 
 // G is the generator state for one package.
 type G struct {
-	t       *rapid.T
-	cfg     Config
-	prog    *Program
-	consts  []*Var
-	helpers []*FuncSig
-	methods map[*StructDef][]*FuncSig
-	fn      *fnCtx
-	ctr     int
-	inKey   bool
+	t        *rapid.T
+	cfg      Config
+	prog     *Program
+	consts   []*Var
+	helpers  []*FuncSig
+	methods  map[*StructDef][]*FuncSig
+	fn       *fnCtx
+	ctr      int
+	inKey    bool
+	generics bool
 }
 
 var uniformIdx = func() []int {
@@ -129,6 +131,11 @@ func (g *G) label(l string) {
 // Generate draws one package.
 func Generate(t *rapid.T, cfg Config) *Program {
 	g := &G{t: t, cfg: cfg, prog: &Program{Imports: map[string]bool{}, Features: map[string]int{}}, methods: map[*StructDef][]*FuncSig{}}
+	if !cfg.NoGenerics && g.chance("generics", 40) {
+		g.generics = true
+		g.prog.Consts = append(g.prog.Consts, genericHelpers)
+		g.label("generic-helpers")
+	}
 	ns := g.pick("nstructs", cfg.Structs+1)
 	for i := 0; i < ns; i++ {
 		g.genStruct(i)
@@ -152,6 +159,54 @@ func Generate(t *rapid.T, cfg Config) *Program {
 		g.genEntry(i)
 	}
 	return g.prog
+}
+
+const genericHelpers = `func gid[T any](x T) T {
+	return x
+}
+
+func gpick[T any](c bool, a T, b T) T {
+	if c {
+		return a
+	}
+	return b
+}
+
+func gfirst[T any](s []T, d T) T {
+	if uint64(len(s)) == 0 {
+		return d
+	}
+	return s[0]
+}
+
+func gswap[A any, B any](a A, b B) (B, A) {
+	return b, a
+}`
+
+// genericCall wraps an expression of type t in a call of a generic helper.
+func (g *G) genericCall(sc *scope, t *Ty, depth int) string {
+	if !g.generics || depth <= 0 {
+		return ""
+	}
+	inst := ""
+	if g.chance("explicitinst", 35) {
+		inst = "[" + t.Go() + "]"
+	}
+	switch g.pick("generickind", 3) {
+	case 0:
+		g.label("generic-call")
+		return "gid" + inst + "(" + castLit(t, g.expr(sc, t, depth-1)) + ")"
+	case 1:
+		g.label("generic-call")
+		return "gpick" + inst + "(" + g.boolExpr(sc, depth-1) + ", " + castLit(t, g.expr(sc, t, depth-1)) + ", " + castLit(t, g.expr(sc, t, depth-1)) + ")"
+	default:
+		vs := g.varsOf(sc, func(v *Var) bool { return v.T.K == KSlice && v.T.Elem.Same(t) })
+		if len(vs) == 0 {
+			return ""
+		}
+		g.label("generic-call")
+		return "gfirst" + inst + "(" + use(vs[g.pick("gfirstslice", len(vs))]) + ", " + castLit(t, g.expr(sc, t, depth-1)) + ")"
+	}
 }
 
 // ---- declarations ----
@@ -452,7 +507,7 @@ func (g *G) genEntry(i int) {
 
 // ---- names ----
 
-var localNames = []string{"x", "y", "z", "a", "b", "v", "w", "k", "n", "t", "acc", "tmp", "val", "ok", "s", "m", "p", "q"}
+var localNames = []string{"x", "y", "z", "a", "b", "v", "w", "k", "n", "t", "acc", "tmp", "val", "ok", "s", "m", "p", "q", "é", "ñ1", "变量", "Skip", "ref", "expr", "in_", "x_y", "X"}
 
 func (g *G) freshName(sc *scope, label string, avoid ...string) string {
 	for tries := 0; tries < 6; tries++ {
@@ -632,6 +687,11 @@ func (g *G) exprTyped(sc *scope, t *Ty, depth int, typed bool) string {
 	g.fn.budget--
 	if g.fn.budget < 0 {
 		depth = 0
+	}
+	if (t.Scalar() || t.K == KStruct) && depth > 0 && g.generics && g.chance("usegeneric", 8) {
+		if s := g.genericCall(sc, t, depth); s != "" {
+			return s
+		}
 	}
 	switch t.K {
 	case KU64, KU32, KU8:
